@@ -268,7 +268,7 @@ PROPS = {
    # (the model's annotation is what the theorems of Jp.C19 are about)
    "zc_ptr": dict(fields=[], spec=[("zc", "zc", ident), ("ctl", "ctl", ident)], laws=[]),
    "zc_parse": dict(fields=[], spec=[("parse", "parse", ident), ("fe", "fe", ident)], laws=[]),
-   "zc_tok": dict(fields=[], spec=[("new", "new", ident), ("dec_b", "dec_b", ident), ("dec_o", "dec_o", ident)], laws=[]),
+   "zc_tok": dict(fields=[], spec=[("new", "new", ident), ("dec_b", "dec_b", ident), ("dec_o", "dec_o", ident), ("new_o", "new_o", ident)], laws=[]),
   },
   rule="seeded random pointers (0–6 tokens; 1 in 200 with thousands of tokens), valid and invalid strings (some multi-kilobyte) measured with a counting global allocator, zero/non-zero compared with the model's allocation annotation; non-trivial: ≥2 tokens or length ≥ 2",
   theorems="Jp.C19.* (every listed operation yields a view/pass-through; Token.new / decoded build a buffer iff a special byte is present)",
